@@ -203,6 +203,14 @@ def _cut(c):
   return f' cutoff="{c}"' if c else ""
 
 
+NOCUT = ("ballquat", "framequat", "framexaxis", "frameyaxis", "framezaxis")  # MuJoCo rejects a cutoff on axis / quaternion data
+
+
+def _cutm(c, tag):
+  """Cutoff attribute for multi-sensor models: never on a type the compiler would reject (that would void the whole model)."""
+  return "" if tag.split(":")[0] in NOCUT else _cut(c)
+
+
 def tree_sensors(base, tier):
   """[(tag, xml-without-cutoff-closing)] every single sensor of the tree family; '{C}' marks the cutoff slot."""
   o = _tree_objects(base)
@@ -366,7 +374,7 @@ def scenarios(tier, seed):
       idx += 1
       c1, c2 = (0.15, 0) if idx % 2 else (0, 0.15)
       out.append(
-        dict(fam="tree", base=base, variant=variant, energy=idx % 2, tags=[t1, t2], sensors=[x1.replace("{C}", _cut(c1)), x2.replace("{C}", _cut(c2))], pair=True)
+        dict(fam="tree", base=base, variant=variant, energy=idx % 2, tags=[t1, t2], sensors=[x1.replace("{C}", _cutm(c1, t1)), x2.replace("{C}", _cutm(c2, t2))], pair=True)
       )
   # joint #k and tendon #k share the object id k: both limit sensors present (both orders), every stage
   for base in BASES:
@@ -395,7 +403,7 @@ def scenarios(tier, seed):
     for rot in range(0, len(reps), 7):
       rr = reps[rot:] + reps[:rot]
       out.append(
-        dict(fam="tree", base=base, variant=variant, energy=rot % 2, tags=[t for t, _ in rr], sensors=[x.replace("{C}", _cut(0.15 if (i + rot) % 3 == 0 else 0)) for i, (_, x) in enumerate(rr)], pair=True)
+        dict(fam="tree", base=base, variant=variant, energy=rot % 2, tags=[t for t, _ in rr], sensors=[x.replace("{C}", _cutm(0.15 if (i + rot) % 3 == 0 else 0, t)) for i, (t, x) in enumerate(rr)], pair=True)
       )
   return out
 
